@@ -2,6 +2,7 @@
 
 
 from functools import singledispatch
+from numbers import Real
 
 import numpy as np
 
@@ -15,7 +16,7 @@ def sign(x):
 
 
 @sign.register
-def _(x: float):
+def _(x: Real):  # any real scalar: float, int, numpy floats and integers
     if x < 0:
         return -1.0
 
